@@ -77,7 +77,7 @@ def rule_a(rep: Report, gm: GrammarModel, rule_prefix: str = 'C02', levels=None,
 			r.check(ok, key, where, f'grammar puts `{a}` at level {da} ({ta}) and `{b}` at level {db} ({tb}) but CPython precedence is {prec[a]} vs {prec[b]}: an expression mixing them groups differently from ast.parse')
 	for lv in levels:
 		if lv.kind == 'binary':
-			rs.check(lv.operand != lv.rule, f'{lv.tag}:flat', where, f'binary level {lv.rule} recurses on itself')
+			rs.check(lv.operand != lv.rule, f'{lv.tag}:flat', where, f'binary level {lv.rule} takes ITSELF as the right operand of its operators ({lv.tokens[:4]}...): a chain is no longer one flat node but nests to the right — `a < b < c` becomes Comparison(a, <, Comparison(b, <, c)) where CPython builds one Compare with two operators (and `a - b - c` would group as a - (b - c))')
 		elif lv.kind == 'prefix':
 			rs.check(lv.operand == lv.rule, f'{lv.tag}:prefix-recursive', where, f'unary level {lv.rule} does not recurse on itself: `- -a` / `not not a` would not parse as nested unary operators')
 		elif lv.kind == 'ternary':
